@@ -330,7 +330,8 @@ class TypeBlocks(ContainerOperand):
         Return an immutable array that, for each realizable column (not each block), the dtype is given.
         '''
         # this creates a new array every time it is called; could cache
-        a = np.array(self._dtypes, dtype=np.dtype)
+        a = np.empty(len(self._dtypes), dtype=DTYPE_OBJECT)
+        a[:] = self._dtypes
         a.flags.writeable = False
         return a
 
